@@ -509,10 +509,15 @@ func (x *Exec) lenOf(st *State, v Val, t types.Type) Term {
 		if v.T.Sort == sStr {
 			return app(sInt, "str.len", v.T)
 		}
-		if mt, ok := under(t).(*types.Map); ok {
-			n := x.uf("maplen!"+typeName(mt), sInt, v.T, x.heapStamp(st))
-			x.assume(app(sBool, "<=", tZero, n))
-			return n
+		if mt, ok := under(t).(*types.Map); ok && scalarSort(mt.Key()) != "" {
+			// the length of a map is a function of its key set: unchanged key set, unchanged length
+			ks := scalarSort(mt.Key())
+			pk := mapHeapKey(mt, "#present")
+			ph := x.heapTerm(x.lenView, st, pk, arrSort(sInt, arrSort(ks, sBool)))
+			fn := sym("maplen!" + ks)
+			x.decl(fn, "(declare-fun "+fn+" ("+arrSort(ks, sBool)+") Int)")
+			x.decl(fn+"!ax", "(assert (forall ((ms "+arrSort(ks, sBool)+")) (! (<= 0 ("+fn+" ms)) :pattern (("+fn+" ms)))))")
+			return tIte(tEq(v.T, tNil), tZero, app(sInt, fn, tSelect(ph.T, v.T)))
 		}
 	}
 	n := x.fresh("len", sInt)
